@@ -16,7 +16,7 @@ from vf.common import CaseResult, Check, Scratch, rng_for
 from vf.fakes3 import FakeS3Store, S3Env
 from vf.interpose import GlobalPatch, Interposer, patch_datetime
 
-ALPHABET = ["append", "append", "append", "multi", "delete", "delete", "delete", "delete_append", "readd", "readd", "prebuilt", "prebuilt", "expire",
+ALPHABET = ["append", "append", "append", "multi", "raced", "delete", "delete", "delete", "delete_append", "readd", "readd", "prebuilt", "prebuilt", "expire",
             "delsnap", "delsnap", "fail_commit", "gc0", "gc", "age", "reopen", "retention",
             "open_tx", "commit_tx", "rollback_tx"]
 
@@ -97,6 +97,8 @@ class C09(Check):
         for step, op in enumerate(ops):
             before = h.last_view
             out = h.apply(op)
+            if out.get("raced") and out["ok"]:
+                res.count("commits_retried_after_lost_race")
             tv = h.observe(op, out["ok"])
             res.evals += 1
             if op[0] == "readd" and out.get("readded"):
